@@ -130,11 +130,28 @@ Theorem C06_F4_done_orig_refuted :
 Proof. exact done_orig_refuted. Qed.
 Print Assumptions C06_F4_done_orig_refuted.
 
-(* ExtractCRC: for pointer_field 0 (and therefore no preceding section) the CRC_32 field of the section *)
+(* ExtractCRC: for pointer_field 0 AND no preceding section the CRC_32 field of the program map section.  In this carrier
+   model pointer_field 0 does NOT exclude a preceding section (the payload may start directly with another complete
+   section), so `pre c = []` is a separate hypothesis; the two theorems after this one show what happens without it. *)
 Theorem C06_extract_crc : forall c, wf_carrier c -> pf c = 0 -> pre c = [] ->
   extract_crc (ser_payload c) = Ok (crc32_of (crc (sec c))).
 Proof. exact extract_crc_ok. Qed.
 Print Assumptions C06_extract_crc.
+
+(* the property's clause without `pre c = []` ("for a payload with pointer_field 0 the CRC accessor returns the section's
+   CRC_32 field") is FALSE when another section precedes the PMT section: ExtractCRC reads section_length of the FIRST
+   section and returns that section's last four bytes *)
+Definition C06_extract_crc_pf0_full : Prop := forall c, wf_carrier c -> pf c = 0 ->
+  extract_crc (ser_payload c) = Ok (crc32_of (crc (sec c))).
+Theorem C06_extract_crc_first_section : forall c o t, wf_carrier c -> pf c = 0 -> pre c = o :: t -> 4 <= len (obody o) ->
+  extract_crc (ser_payload c) = Ok (crc32_of (dropN (len (obody o) - 4) (obody o))).
+Proof. exact extract_crc_preceding. Qed.
+Print Assumptions C06_extract_crc_first_section.
+Theorem C06_extract_crc_preceding_refuted :
+  exists c, wf_carrier c /\ pf c = 0 /\ pre c <> [] /\
+            extract_crc (ser_payload c) = Ok (be32 2 3 4 5) /\ crc32_of (crc (sec c)) = be32 1 2 3 4.
+Proof. exact extract_crc_preceding_refuted. Qed.
+Print Assumptions C06_extract_crc_preceding_refuted.
 
 (* PSI header accessors: on any payload = pointer_field, that many filler bytes, a 3-byte section header *)
 Theorem C06_psi_accessors : forall pfv filler t b1 b2 rest, len filler = pfv ->
